@@ -673,6 +673,7 @@ Proof.
   - inv H. apply (inv_stutter (abs s)); auto.
   - inv H. apply (inv_stutter (abs s)); auto.
   - inv H. apply (inv_stutter (abs s)); auto.
+  - inv H. apply (inv_stutter (abs s)); auto.
 Qed.
 
 Lemma init_inv c0 s0 f0 : AInv (abs (init c0 s0 f0)).
@@ -955,6 +956,7 @@ Proof.
   - inv H. cbn. lia.
   - inv H. cbn. lia.
   - inv H. cbn. lia.
+  - inv H. cbn. lia.
 Qed.
 
 (** a worker's blocking call (the issuer) can always be ended by cancellation: at any time for a
@@ -998,6 +1000,7 @@ Proof.
   - apply guard_some in H as [G H]. inv H. cbn. rewrite upd_other; [assumption|].
     intros ->. rewrite Ht in G. discriminate.
   - apply guard_some in H as [G H]. inv H. assumption.
+  - inv H. assumption.
   - inv H. assumption.
   - inv H. assumption.
   - inv H. assumption.
@@ -1263,6 +1266,7 @@ Proof.
     + rewrite upd_same in Hx. inv Hx. split; [intros ch Hc; discriminate|discriminate].
     + rewrite upd_other in Hx by exact Nx. exact (W _ _ Hx).
   - apply guard_some in H as [G H]. inv H. exact W.
+  - inv H. exact W.
   - inv H. exact W.
   - inv H. exact W.
   - inv H. exact W.
